@@ -90,7 +90,8 @@ def rexpr(r, d=0):
         if r.random() < 0.12:
             # more significant digits than the decimal context keeps, some of them nearly equal (sums that cancel)
             return r.choice(['1234567890.5', '1234567891.12345678901234567890', '0.1234567890123456789012345678901234',
-                             '98765432109876543210987654321098765', '1234567891.12345678901234567891', '1.2345678901234567890123456789'])
+                             '98765432109876543210987654321098765.0',   # (with a point: <4+ digits>-1-2 is a DATE lexeme wherever the grammar accepts a date)
+                             '1234567891.12345678901234567891', '1.2345678901234567890123456789'])
         return r.choice(['1', '2', '3.5', '1,000', '0.25', '7.', '12', '0.1', '99'])
     if k < 0.5:
         return r.choice('+-') + r.choice(['', ' ']) + rexpr(r, d + 1)
